@@ -5,6 +5,10 @@ Line protocol of the C02 table-level correspondence run (harness: zz_verif_c02t_
 A prefix is three tokens `fam len hex` (hex = the 4 or 16 address octets).
 
   key fam len hex K                     register tableKey(prefix) = K (decimal uint64)
+  src i a                               source i has address-string class a (views are given as classes)
+  adjdrop n T1 … Tn                     AdjRib.Drop on the families of tables T1 … Tn
+  adjstale n T1 … Tn                    AdjRib.StaleAll on those families
+  adjdropstale n T1 … Tn                AdjRib.DropStale on those families
   new T mode                            (re)create table T empty; mode 0 = Loc-RIB table, 1 = Adj-RIB table
   ann T fam len hex src rid rank tag rej
   wd  T fam len hex src rid dropped
@@ -35,6 +39,7 @@ structure Tab where
 structure St where
   reg : List Reg := []
   tabs : List Tab := []
+  srcs : List (Nat × Nat) := []
 
 def hexVal (c : Char) : Nat :=
   if '0' ≤ c ∧ c ≤ '9' then c.toNat - '0'.toNat
@@ -91,6 +96,11 @@ def findTab (s : St) (id : Nat) : Option Tab := s.tabs.find? (·.id == id)
 
 def putTab (s : St) (t : Tab) : St := { s with tabs := t :: s.tabs.filter (·.id != t.id) }
 
+/-- the Adj-RIB tables as the model's multi-family Adj-RIB-In, and back -/
+def adjView (s : St) : AdjRibM := (s.tabs.filter (·.adj)).map (fun t => (t.id, (t.d, t.accepted)))
+
+def putAdj (s : St) (a : AdjRibM) : St := a.foldl (fun s x => putTab s ⟨x.1, true, x.2.1, x.2.2⟩) s
+
 def parseQueries : Nat → List String → Option (List (Lookup × Pfx))
   | 0, [] => some []
   | 0, _ => none
@@ -108,13 +118,18 @@ def step (s : St) (ts : List String) : St × List String :=
   | ["key", fam, len, hex, k] =>
     let p := parsePfx fam len hex
     ({ s with reg := ⟨p.fam, p.bits.length, p.bits, nat! k⟩ :: s.reg }, [])
+  | ["src", i, a] => ({ s with srcs := (nat! i, nat! a) :: s.srcs }, [])
+  | "adjdrop" :: rest => (putAdj s (adjRibDrop (takeList rest).1 (adjView s)), [])
+  | "adjstale" :: rest => (putAdj s (adjRibStaleAll (takeList rest).1 (adjView s)), [])
+  | "adjdropstale" :: rest => (putAdj s (adjRibDropStale h (takeList rest).1 (adjView s)), [])
   | ["new", t, mode] => (putTab s ⟨nat! t, mode == "1", [], 0⟩, [])
   | ["ann", t, fam, len, hex, src, rid, rank, tag, rej] =>
     match findTab s (nat! t) with
     | none => (s, ["bad-op"])
     | some tb =>
       let p := parsePfx fam len hex
-      let op := TOp.ann ⟨nat! src, nat! rid, nat! rank, nat! tag, 0, b! rej⟩
+      let a := ((s.srcs.find? (·.1 == nat! src)).map (·.2)).getD 0
+      let op := TOp.ann { src := nat! src, rid := nat! rid, rank := nat! rank, tag := nat! tag, lid := 0, rej := b! rej, addr := a }
       if tb.adj then
         let old := ((get h tb.d p).getD (adjOps.fresh p))
         (putTab s { tb with d := update adjOps h tb.d p op, accepted := tb.accepted + adjAccDelta old op }, [])
